@@ -4,4 +4,10 @@ go 1.21
 
 require github.com/cloudwego/gopkg v0.0.0
 
+require (
+	github.com/bytedance/gopkg v0.1.1 // indirect
+	golang.org/x/net v0.24.0 // indirect
+	golang.org/x/text v0.14.0 // indirect
+)
+
 replace github.com/cloudwego/gopkg => /repo
